@@ -336,6 +336,48 @@ pub fn direct_check(n: usize, ops: &[Op], path: &Path, o: &Obs) -> Vec<String> {
     if twice.as_ref() != Some(&spec) {
         bad.push("reversing twice does not give the original".to_string());
     }
+    // ---- concatenation: a builder extended with [this path, a second one, this path again] yields the events one
+    // after the other (with the attributes), through the plain builder (n = 0) and the attribute builder
+    {
+        let got: Option<Vec<AEvent>> = catch(AssertUnwindSafe(|| {
+            let other = {
+                let mut b = Path::builder_with_attributes(n);
+                let a: Vec<f32> = (0..n).map(|k| 70.0 + k as f32).collect();
+                b.begin(point(50.0, 51.0), &a);
+                b.quadratic_bezier_to(point(52.0, 53.0), point(54.0, 55.0), &a);
+                b.end(false);
+                b.build()
+            };
+            let mut b = Path::builder_with_attributes(n);
+            b.extend_from_paths(&[path.as_slice(), other.as_slice(), path.as_slice()]);
+            let joined = b.build();
+            joined.iter_with_attributes().map(own).collect()
+        }));
+        let a: Vec<f32> = (0..n).map(|k| 70.0 + k as f32).collect();
+        let other_events: Vec<AEvent> = vec![
+            Event::Begin { at: (point(50.0, 51.0), a.clone()) },
+            Event::Quadratic { from: (point(50.0, 51.0), a.clone()), ctrl: point(52.0, 53.0), to: (point(54.0, 55.0), a.clone()) },
+            Event::End { last: (point(54.0, 55.0), a.clone()), first: (point(50.0, 51.0), a.clone()), close: false },
+        ];
+        let mut want = spec.clone();
+        want.extend(other_events);
+        want.extend(spec.clone());
+        if got.as_ref() != Some(&want) {
+            bad.push("extend_from_paths: the concatenation does not yield the paths' events one after the other".to_string());
+        }
+        if n == 0 {
+            let got0: Option<Vec<PathEvent>> = catch(AssertUnwindSafe(|| {
+                let mut b = Path::builder();
+                b.extend_from_paths(&[path.as_slice(), path.as_slice()]);
+                b.build().iter().collect()
+            }));
+            let mut want0 = spec_pos.clone();
+            want0.extend(spec_pos.clone());
+            if got0.as_ref() != Some(&want0) {
+                bad.push("extend_from_paths on the plain builder does not yield the paths' events one after the other".to_string());
+            }
+        }
+    }
     // ---- an entry of a path buffer holding several paths
     {
         let got: Option<(Vec<AEvent>, Vec<AEvent>)> = catch(AssertUnwindSafe(|| {
